@@ -30,6 +30,7 @@ var keys = []keyDef{
 var (
 	strVals   = []string{"x", "y", "GET", "POST", "alpha", "ba", "a.b", "foo bar", "it's", `q"t`, `b\s`}
 	numVals   = []string{"0", "1", "5", "7", "10", "-3", "2.5", "200", "404", "500", "0.25"}
+	tinyNums  = []string{"0.0000001", "4.9999999", "2.50000001"} // literals only: more than six fraction digits
 	oddNums   = []string{"05", "5.0", "1e3", "+5", "inf", "nan", ".5", "5.", "0x10", " 5"}
 	nonNums   = []string{"n/a", "x", ""}
 	names     = []string{"op1", "op2", "GET /x", "5", "db.query"}
@@ -172,6 +173,9 @@ type scriptGen struct {
 func (g *scriptGen) literal(k keyDef) (kind int, str string, lit string, tick bool) {
 	r := g.r
 	if k.num && r.Intn(100) < 85 {
+		if r.Intn(100) < 3 {
+			return rt.KNum, "", pick(r, tinyNums), false
+		}
 		return rt.KNum, "", pick(r, numVals), false
 	}
 	if !k.num && r.Intn(100) < 4 {
@@ -374,7 +378,11 @@ func genScript(r *rand.Rand) *rt.Script {
 		if r.Intn(100) >= emptyP {
 			sel.Expr = g.seq(1)
 		}
-		if r.Intn(100) < 34 && (sel.Expr != nil || g.weird) {
+		aggP := 30
+		if n == 1 {
+			aggP = 50
+		}
+		if r.Intn(100) < aggP && (sel.Expr != nil || g.weird) {
 			sel.Agg = g.agg()
 		}
 		s.Sels = append(s.Sels, sel)
@@ -525,6 +533,39 @@ func selClass(sel *rt.Selector, withAgg bool) string {
 //	chains:           chain-with-duration-only (the empty-condition class) ≻ chainN(&&|‖|mixed) for N ≥ 3
 //	                  ≻ chain2(op)-with-duration-or ≻ selector&&selector | selector||selector
 func shapeClass(s *rt.Script) string {
+	return shapeClass0(s)
+}
+
+// mismatchClass is the class under which a wrong answer (not a rejected statement) is filed: scripts
+// holding a numeric literal with more than six fraction digits form their own class, because there
+// the rendering of the literal into SQL decides the outcome whatever the script's shape is.
+func mismatchClass(s *rt.Script) string {
+	if hasLongDecimal(s) {
+		return "long-decimal-literal"
+	}
+	return shapeClass0(s)
+}
+
+func longDecimal(lit string) bool {
+	i := strings.IndexByte(lit, '.')
+	return i >= 0 && len(lit)-i-1 > 6
+}
+
+func hasLongDecimal(s *rt.Script) bool {
+	for _, t := range s.Terms() {
+		if t.Kind == rt.KNum && longDecimal(t.Lit) {
+			return true
+		}
+	}
+	for _, sel := range s.Sels {
+		if sel.Agg != nil && longDecimal(sel.Agg.Num) {
+			return true
+		}
+	}
+	return false
+}
+
+func shapeClass0(s *rt.Script) string {
 	durOnly, durOr := false, false
 	for _, sel := range s.Sels {
 		switch selClass(sel, false) {
@@ -770,37 +811,27 @@ func satisfying(r *rand.Rand, t *rt.Term) (string, bool) {
 // see several values — the situations the per-span bit-set, the grouping and the chain operators
 // have to get right.
 func plant(r *rand.Rand, db *rt.DB, s *rt.Script, from, to int64) {
-	for _, t := range s.Terms() {
-		if t.Scope == "" && t.Name != "name" && t.Name != "duration" {
-			continue
-		}
-		for _, tr := range db.Traces {
-			if r.Intn(100) >= 40 {
+	for _, sel := range s.Sels {
+		for _, t := range sel.Expr.Terms() {
+			if t.Scope == "" && t.Name != "name" && t.Name != "duration" {
 				continue
 			}
-			sp := pick(r, tr.Spans)
-			if isDur(t) {
-				ns, _, err := rt.ParseDur(t.Lit)
-				if err != nil || t.Kind != rt.KDur {
+			for _, tr := range db.Traces {
+				if r.Intn(100) >= 40 {
 					continue
 				}
-				switch t.Op {
-				case "=", ">=", "<=":
-					sp.Dur = ns
-				case ">", "!=":
-					sp.Dur = ns + 1 + r.Int63n(1000)
-				case "<":
-					if ns > 0 {
-						sp.Dur = ns - 1
+				targets := []*rt.Span{pick(r, tr.Spans)}
+				if sel.Agg != nil {
+					// aggregates need several matching spans per trace
+					for _, sp := range tr.Spans {
+						if r.Intn(2) == 0 {
+							targets = append(targets, sp)
+						}
 					}
 				}
-				continue
-			}
-			if v, ok := satisfying(r, t); ok {
-				setAttr(sp, t.Name, v)
-			}
-			if r.Intn(3) == 0 && (sp.TS < from || sp.TS >= to) {
-				sp.TS = from + r.Int63n(to-from)
+				for _, sp := range targets {
+					plantTerm(r, sp, t, from, to)
+				}
 			}
 		}
 	}
@@ -808,12 +839,38 @@ func plant(r *rand.Rand, db *rt.DB, s *rt.Script, from, to int64) {
 		if a := sel.Agg; a != nil && a.Scope != "" {
 			for _, tr := range db.Traces {
 				for _, sp := range tr.Spans {
-					if r.Intn(100) < 35 {
+					if r.Intn(100) < 50 {
 						setAttr(sp, a.Name, pick(r, numVals))
 					}
 				}
 			}
 		}
+	}
+}
+
+func plantTerm(r *rand.Rand, sp *rt.Span, t *rt.Term, from, to int64) {
+	if isDur(t) {
+		ns, _, err := rt.ParseDur(t.Lit)
+		if err != nil || t.Kind != rt.KDur {
+			return
+		}
+		switch t.Op {
+		case "=", ">=", "<=":
+			sp.Dur = ns
+		case ">", "!=":
+			sp.Dur = ns + 1 + r.Int63n(1000)
+		case "<":
+			if ns > 0 {
+				sp.Dur = ns - 1
+			}
+		}
+		return
+	}
+	if v, ok := satisfying(r, t); ok {
+		setAttr(sp, t.Name, v)
+	}
+	if r.Intn(3) == 0 && (sp.TS < from || sp.TS >= to) {
+		sp.TS = from + r.Int63n(to-from)
 	}
 }
 
@@ -847,6 +904,9 @@ func aimAggregates(r *rand.Rand, db *rt.DB, s *rt.Script, from, to int64) {
 		default:
 			if a.Unit == "" {
 				a.Num = strconv.FormatFloat(v, 'f', -1, 64)
+				if longDecimal(a.Num) && r.Intn(10) != 0 {
+					a.Num = strconv.FormatFloat(v, 'f', 3, 64) // near the value, short enough for any renderer
+				}
 			}
 		}
 	}
